@@ -30,7 +30,16 @@ for line in sys.stdin:
 		elif parts[0] == 'cmp':
 			a, b = Date(int(parts[1])), Date(int(parts[2]))
 			ta = Date(bytes(a))
-			print('%d %d %d %d %d' % (a < b, a > b, a == b, ta < b, ta == b))
+			out = '%d %d %d %d %d' % (a < b, a > b, a == b, ta < b, ta == b)
+			# the other operand as an instant, as text and as octets in each of the three forms
+			ops = [int(parts[2])]
+			for h in parts[3:]:
+				if h != '-':
+					ops.append(bytes.fromhex(h))
+					ops.append(bytes.fromhex(h).decode('ascii'))
+			for x in ops:
+				out += ' %d%d%d%d%d%d' % (a < x, a > x, a == x, a != x, a <= x, a >= x)
+			print(out)
 		else:
 			print('bad-op')
 	except Exception as e:
